@@ -158,6 +158,19 @@ impl<T: Clone> NumbatList<T> {
     }
 }
 
+#[cfg(feature = "verif")]
+impl<T> NumbatList<T> {
+    /// Verification hook: (allocation address, view, strong count, allocation length).
+    pub fn verif_repr(&self) -> (usize, Option<(usize, usize)>, usize, usize) {
+        (
+            Arc::as_ptr(&self.alloc) as usize,
+            self.view,
+            Arc::strong_count(&self.alloc),
+            self.alloc.len(),
+        )
+    }
+}
+
 impl From<NumbatList<Value>> for Value {
     fn from(list: NumbatList<Value>) -> Self {
         Value::List(list)
